@@ -116,6 +116,7 @@ pub struct FileRequestPayload {
     /// Options flags (reserved)
     pub flags: u16,
     /// Length of the identifier that follows
+    #[br(assert(identifier_length <= MAX_PAYLOAD_SIZE))]
     pub identifier_length: u32,
     /// File path or `FileDataID` as bytes
     #[br(count = identifier_length)]
@@ -195,6 +196,7 @@ pub struct FileResponsePayload {
     /// Size of uncompressed data
     pub uncompressed_size: u32,
     /// Size of compressed data
+    #[br(assert(compressed_size <= MAX_PAYLOAD_SIZE))]
     pub compressed_size: u32,
     /// MD5 hash of uncompressed data
     pub content_hash: [u8; 16],
@@ -270,6 +272,7 @@ pub struct StatusRequestPayload {
     /// Reserved flags
     pub flags: [u8; 3],
     /// Installation name length (if `status_type` == 1)
+    #[br(assert(name_length <= MAX_PAYLOAD_SIZE))]
     pub name_length: u32,
     /// Installation name
     #[br(count = name_length)]
@@ -334,6 +337,7 @@ pub struct StatusResponsePayload {
     /// Uptime in seconds
     pub uptime: u32,
     /// JSON status data length
+    #[br(assert(status_data_length <= MAX_PAYLOAD_SIZE))]
     pub status_data_length: u32,
     /// JSON status data
     #[br(count = status_data_length)]
